@@ -3,6 +3,7 @@ package main
 import (
 	"bytes"
 	"fmt"
+	"os"
 	"reflect"
 	"sort"
 	"strings"
@@ -31,7 +32,7 @@ type priorOp struct{ row, kind int }
 
 // histories enumerates the receiver histories for a target. quick: new, two residue fills, after
 // each method of the table (its first operand kind). thorough: after each (method, kind), and — for
-// calls that deviate in at most one of (aliasing, output history) — after every ordered pair of methods (first kinds).
+// calls with a fresh exact or aliased output — after every ordered pair of methods (first kinds).
 func histories(t *ot.Target, tier string, plain bool) []history {
 	hs := []history{{name: "new"}, {name: "residue:ones", fill: 1}, {name: "residue:pattern", fill: 2}}
 	if t.Randomized {
@@ -103,6 +104,9 @@ var (
 )
 
 const sigCap = 2
+
+// dryRun (C09_DRYRUN=1): enumerate the choice tree without executing any call — used to size the tiers.
+var dryRun = os.Getenv("C09_DRYRUN") == "1"
 
 func report(c *engine.Chooser, leafKey, sig, format string, args ...interface{}) {
 	sig = canonicalSig(sig)
@@ -438,13 +442,17 @@ func methodScenario(envName string, t *ot.Target, ri int, tier string) engine.Sc
 			shapes = append(shapes, row.Out.Shapes...)
 		}
 		sh := shapes[c.Choose(len(shapes), "outshape")]
-		// ordered pairs of previous calls (thorough) are combined with every aliasing pattern and with every
-		// output history, but not with both at once
+		// ordered pairs of previous calls (thorough) are combined with every aliasing pattern (exact output),
+		// not with the output histories
 		hists := histsOther
-		if pat.Name == "fresh" || sh == ot.ShapeExact {
+		if sh == ot.ShapeExact {
 			hists = histsPlain
 		}
 		h := hists[c.Choose(len(hists), "history")]
+		if dryRun {
+			c.Skip("dry run (C09_DRYRUN=1): leaves are only counted")
+			return
+		}
 		d := dev{pat, sh, h}
 		leafKey := fmt.Sprint(name, "|", kind.Name, "|", pat.Name, "|", sh, "|", h.name)
 		c.Cover("target", t.Name)
